@@ -88,7 +88,7 @@ static bool equal_bv(const BinsonValue &v, const Node &n) {
 }
 
 // ---------------------------------------------------------------- one operation; everything allocated inside is gone at return
-struct Case { int op; int ovl; const Node *tree; const Bytes *ref; const Bytes *bytes; bool verify_ok; uint64_t order_seed; int max_depth; int pre; };
+struct Case { int op; int ovl; const Node *tree; const Bytes *ref; const Bytes *bytes; bool verify_ok; uint64_t order_seed; int max_depth; int pre; const Node *tree2; const Bytes *ref2; };
 struct Status { int outcome = 0; bool correct = true; bool recovered = true; char detail[200] = {0}; uint64_t allocs = 0; };
 enum { OUT_NORMAL = 0, OUT_STDEXC = 1, OUT_BADALLOC = 2, OUT_OTHER = 3 };
 
@@ -132,6 +132,27 @@ static void body(const Case &cs, Status &st, uint64_t fail_at) {
             deser(d, cs.ovl, *cs.bytes, cs.max_depth, cs.pre);
             std::vector<uint8_t> ser = d.serialize();
             if (ser.size() != cs.bytes->size() || (ser.size() && memcmp(ser.data(), cs.bytes->data(), ser.size()) != 0)) note(st, "serialize(deserialize(bytes)) != bytes");
+        } else if (cs.op == 4) {
+            // the same object is used for several operations: serialize, change it through one of the put overloads, serialize again
+            build(b, *cs.tree, cs.order_seed);
+            std::vector<uint8_t> s1 = b.serialize();
+            if (s1.size() != cs.ref->size() || (s1.size() && memcmp(s1.data(), cs.ref->data(), s1.size()) != 0)) note(st, "serialize() differs from the canonical encoding");
+            std::string key = "~mut";
+            switch (cs.order_seed % 3) {
+                case 0: b.put(key, BinsonValue((int64_t)77)); break;
+                case 1: { Binson inner; inner.put("k", BinsonValue(true)); b.put(key, inner); break; }
+                default: { static const uint8_t blob[3] = {1, 2, 3}; b.put(key, blob, sizeof blob); break; }
+            }
+            if (cs.order_seed & 8) b.put(key, BinsonValue((int64_t)78));      // overwrite an existing key
+            std::vector<uint8_t> s2 = b.serialize();
+            if (s2.size() != cs.ref2->size() || (s2.size() && memcmp(s2.data(), cs.ref2->data(), s2.size()) != 0)) note(st, "serialize() after a further put() is not the encoding of the changed object");
+            std::vector<uint8_t> wbuf(cs.ref2->size() + 16);
+            binson_writer w; binson_writer_init(&w, wbuf.data(), wbuf.size());
+            b.serialize(&w);
+            if (binson_writer_get_counter(&w) != cs.ref2->size() || memcmp(wbuf.data(), cs.ref2->data(), cs.ref2->size()) != 0) note(st, "serialize(binson_writer*) differs from the encoding of the changed object");
+            d.put("stale-key", BinsonValue(true));                           // deserialize must replace, not merge
+            deser(d, cs.ovl, *cs.ref2, cs.max_depth, cs.pre);
+            if (!equal_obj(d, *cs.tree2)) note(st, "deserialize into a used object did not give exactly the document");
         } else if (cs.op == 3) {
             // toStr(): exercised for crashes, leaks and non-std exceptions only (the text itself is C14's business)
             build(b, *cs.tree, cs.order_seed);
@@ -148,7 +169,7 @@ static void body(const Case &cs, Status &st, uint64_t fail_at) {
     st.allocs = g_alloc_n;
     g_fail_at = 0;
     // after any outcome the objects must still be usable: clear() + a valid deserialize must work
-    if (cs.ref && !cs.ref->empty()) {
+    if (cs.ref && !cs.ref->empty() && cs.verify_ok) {       // (a tree beyond the wrapper's depth limit cannot be read back: nothing to recover to)
         try { d.clear(); d.deserialize(cs.ref->data(), cs.ref->size()); if (cs.tree && !equal_obj(d, *cs.tree)) st.recovered = false; b.clear(); }
         catch (...) { st.recovered = false; }
     }
@@ -166,6 +187,8 @@ Plan cppwrap_generate(uint64_t base, const std::string &prop, uint64_t index, in
     k.long_strings = rd.chance(1, 4) ? 1 + (int)rd.below(2) : 0;       // documents above the 1000-byte first-try buffer
     if (rd.chance(1, 8)) { k.max_kids = 12; k.alphabet = 1; }          // wide objects: many keys, also well above 1000 bytes
     k.max_obj_depth = 1 + (int)rd.below(10);                            // wrapper depth limit is 10
+    bool deep_objects = rd.chance(1, 30);                                // beyond the limit: only toStr() is defined to cope (it returns an empty string)
+    if (deep_objects) { k.max_obj_depth = 11 + (int)rd.below(4); k.p_container = 90; k.p_empty = 0; k.max_nodes = 40; }
     k.max_arr_depth = 1 + (int)rd.below(6);
     k.p_container = 20 + (int)rd.below(40);
     p.root = 0;
@@ -185,7 +208,8 @@ Plan cppwrap_generate(uint64_t base, const std::string &prop, uint64_t index, in
     p.note = tree_text(t);
     p.max_depth = 10;
     unsigned o = (unsigned)ro.below(100);
-    int op = o < 36 ? 0 : o < 50 ? 1 : o < 56 ? 3 : 2;
+    int op = o < 30 ? 0 : o < 42 ? 1 : o < 48 ? 3 : o < 60 ? 4 : 2;
+    if (deep_objects) { op = 3; p.faults.push_back("shape:objects_beyond_wrapper_depth"); }
     p.par["op"] = op;
     p.par["ovl"] = (int64_t)ro.below(3);
     p.par["order"] = (int64_t)(ro.next() >> 8);
@@ -223,9 +247,26 @@ Result cppwrap_execute(const Plan &p, const ExecCtx &c) {
         q.setup(10, 0, p.doc, false);
         Outcome a = q.call(mk(P_INIT_OBJ, -1));
         verify_ok = a.ret && q.call(mk(P_VERIFY)).ret;
-        if (op != 2 && !verify_ok) { r.invalid_plan = true; r.detail = "generated tree exceeds the wrapper's depth limit"; return r; }
+        if (op != 2 && op != 3 && !verify_ok) { r.invalid_plan = true; r.detail = "generated tree exceeds the wrapper's depth limit"; return r; }
     }
-    Case cs{op, ovl, have_tree ? &tree : nullptr, have_tree ? &ref : nullptr, &p.doc, verify_ok, (uint64_t)p.P("order"), 10, (int)p.P("pre")};
+    Node tree2; Bytes ref2;
+    if (op == 4) {      // reference for the changed object
+        tree2 = tree;
+        uint64_t os = (uint64_t)p.P("order");
+        Node m; m.name = Bytes{'~', 'm', 'u', 't'};
+        switch (os % 3) {
+            case 0: m.t = V_INT; m.i = 77; break;
+            case 1: { m.t = V_OBJ; Node k; k.t = V_BOOL; k.b = true; k.name = Bytes{'k'}; m.kids.push_back(k); break; }
+            default: m.t = V_BYTES; m.s = Bytes{1, 2, 3}; break;
+        }
+        if (os & 8) { Bytes nm = m.name; m = Node(); m.name = nm; m.t = V_INT; m.i = 78; }
+        bool dup = false; for (auto &kid : tree2.kids) if (kid.name == m.name) dup = true;
+        if (dup) { r.invalid_plan = true; r.detail = "key collision"; return r; }
+        tree2.kids.push_back(m);
+        std::sort(tree2.kids.begin(), tree2.kids.end(), [](const Node &a, const Node &b) { return a.name < b.name; });
+        encode(tree2, ref2);
+    }
+    Case cs{op, ovl, have_tree ? &tree : nullptr, have_tree ? &ref : nullptr, &p.doc, verify_ok, (uint64_t)p.P("order"), 10, (int)p.P("pre"), &tree2, &ref2};
     // ---- fault-free configuration
     long live0 = g_live.load();
     Status st;
